@@ -10,4 +10,8 @@ def emptyReturns : List (List Nat × List Nat) := [([], [0]), ([], [0])]
 def searchSides : List (String × String × String) := [("get_segment_masks", "right", "1"), ("get_segment_starts_for", "right", "1"), ("get_segment_positions", "right", "1")]
 /-- index guards: (function, [(condition, exception)]). -/
 def guards : List (String × List (String × String)) := [("get_segment_masks", [("Lt 0", "ValueError"), ("GtE starts[-1]", "ValueError")]), ("get_segment_starts_for", [("Lt 0", "ValueError"), ("GtE starts[-1]", "ValueError")]), ("get_segment_positions", [("Lt 0", "ValueError"), ("GtE starts[-1]", "ValueError")])]
+/-- every place in molecules.py that looks at a bond type (BondType members, the type column, bond removal). -/
+def moleculeBondTypeRefs : List String := []
+/-- every mention of bond types in bonds.pyx find_connected / _find_connected. -/
+def connectedBondTypeRefs : List String := []
 end BiotiteModel.Gen.C17
